@@ -164,26 +164,14 @@ def run(ctx: Ctx, rep: Report, tier: str):
           "back to its old name is still recognised as a rename and ends with the object only at its new path", 4, lambda: C03(ctx, rep).r1_r2(),
           keep=lambda i: i.rule == "C03.R1" and i.key.split("|")[0] in ("handle_rename", "unsafe_mkdir_synced"))
     rep.rule("C04.R7", "a folder delete that finds children re-examines the children on the side where the delete happened: the kids listed for "
-             "(path, side) are force-synced on that same side", 1)
-    hd = ctx.prog.func("SyncManager._handle_dir_delete_not_empty")
-    n7 = 0
-    for lp in [n for n in ctx.own_nodes(hd) if isinstance(n, ast.For)]:
-        m = pat.match("self.state.get_kids($P, $S)", lp.iter)
-        if m is None:
-            continue
-        kid = lp.target.elts[0].id if isinstance(lp.target, ast.Tuple) and isinstance(lp.target.elts[0], ast.Name) else (lp.target.id if isinstance(lp.target, ast.Name) else None)
-        for c_ in [x for b in lp.body for x in ast.walk(b) if isinstance(x, ast.Call) and isinstance(x.func, ast.Attribute) and x.func.attr == "set_force_sync"]:
-            m2 = pat.match("%s[$X].set_force_sync()" % kid, c_)
-            if m2 is None:
-                continue
-            n7 += 1
-            pm = pat.match("$E[$PS].path", m["P"])
-            okk = pat.same(m2["X"], m["S"]) and (pm is None or pat.same(pm["PS"], m["S"]))
-            rep.check("C04.R7", "_handle_dir_delete_not_empty|kids", ctx.line(hd, c_), okk, "kids of side %s re-checked on side %s" % (ast.unparse(m["S"]), ast.unparse(m2["X"])),
-                      "the children found under the deleted folder on side `%s` are marked for re-check on side `%s`: their state on the deleting side is never refreshed, the "
-                      "folder delete gives up and the folder is re-created / the delete is lost" % (ast.unparse(m["S"]), ast.unparse(m2["X"])))
-    if n7 == 0:
-        raise AnalysisError("_handle_dir_delete_not_empty: the force-sync of the children was not found")
+             "(path, side) are FORCE-synced (a plain changed mark is discarded by the needs-no-sync short-circuit) on that same side, and so is the folder", 2)
+    from rules.common import dir_delete_rechecks_kids
+    dir_delete_rechecks_kids(ctx, rep, "C04.R7")
     rep.rule("C04.R3c", "a refresh that finds the object marks it EXISTS on every path (C14.W8): a stale tombstone does not delete the peer of a live object", 1)
     refresh_marks_exists(ctx, rep, "C04.R3c")
     c.r6()
+    from rules.common import alias as _alias
+    from rules.common import temp_rename_on_moved_entry
+    rep.rule("C04.R8", "the engine's own move-aside (.conflicted temp rename) is never mistaken for a user rename: TEMP_RENAME is flagged on the entry "
+           "whose file was moved (C03.R6), so a one-sided rename cycle ends with each object only at its new path", 2)
+    temp_rename_on_moved_entry(ctx, rep, "C04.R8")
